@@ -54,14 +54,27 @@ class Env:
         self.stream_fd = None
         self.perform = None  # callable(action)
         self.gate = None     # callable(kind): blocks a callback thread at its next shared-state operation
+        self.pending_stall = 0   # the main thread is descheduled for this long right after select() returns
+        self.in_select = False
 
     # --- time module double
     def time(self):
+        if self.pending_stall and not self.in_select:
+            self.us += self.pending_stall
+            self.pending_stall = 0
+            self.events.append({"k": "stalled"})
         self.us += EPS
         return BASE + self.us / 1e6
 
     # --- select module double
     def select(self, rlist, wlist, xlist, timeout=None):
+        self.in_select = True
+        try:
+            return self._select(rlist, timeout)
+        finally:
+            self.in_select = False
+
+    def _select(self, rlist, timeout):
         entry = self.us
         while True:
             ready = real_select.select(rlist, [], [], 0)[0]
@@ -276,6 +289,9 @@ def run_history(hist, paste_threshold=8, final_drain=True):
                 elif k == "tick":
                     env.us += TICK
                     rec.append({"k": "tick"})
+                elif k == "stall":
+                    # takes effect at the main thread's next clock reading outside select()
+                    env.pending_stall += a.get("us", TICK)
             env.perform = perform
 
             def request(T):
@@ -308,7 +324,7 @@ def run_history(hist, paste_threshold=8, final_drain=True):
                 rec.append(ret)
                 return ret
 
-            BLOCKABLE = {"arrive", "tsappend", "tswrite", "tscall", "sigint", "tick"}
+            BLOCKABLE = {"arrive", "tsappend", "tswrite", "tscall", "sigint", "tick", "stall"}
             i = 0
             n = len(hist)
             while i < n:
@@ -322,6 +338,7 @@ def run_history(hist, paste_threshold=8, final_drain=True):
                     j += 1
                 env.script = list(hist[i:j])
                 request(a["T"])
+                env.pending_stall = 0
                 left = env.script
                 env.script = []
                 for b in left:          # not consumed while blocked: they happen before the next request
